@@ -768,7 +768,7 @@ func (t *Transaction) ListDatabases(query bsonkit.Doc) (bsonkit.List, error) {
 		// add specification
 		list = append(list, &bson.D{
 			bson.E{Key: "name", Value: name},
-			bson.E{Key: "sizeOnDisk", Value: 0},
+			bson.E{Key: "sizeOnDisk", Value: int64(0)},
 			bson.E{Key: "empty", Value: empty},
 		})
 	}
@@ -812,9 +812,9 @@ func (t *Transaction) ListCollections(handle Handle, query bsonkit.Doc) (bsonkit
 					bson.E{Key: "readOnly", Value: false},
 				}},
 				bson.E{Key: "idIndex", Value: bson.D{
-					bson.E{Key: "v", Value: 2},
+					bson.E{Key: "v", Value: int32(2)},
 					bson.E{Key: "key", Value: bson.D{
-						bson.E{Key: "_id", Value: 1},
+						bson.E{Key: "_id", Value: int32(1)},
 					}},
 					bson.E{Key: "name", Value: "_id_"},
 					bson.E{Key: "namespace", Value: ns.String()},
